@@ -6,14 +6,17 @@ O2 == O1 + 326
 O3 == O2 + 155
 O4 == O3 + NLongSeqs
 O5 == O4 + 1
-Count == O5 + NNearMiss
+O6 == O5 + NNearMiss
+Count == O6 + NPlusExtra
 ItemAt(g) ==
   IF g <= O1 THEN AllSeqAt(g)
   ELSE IF g <= O2 THEN OrderingAt(g - O1)
   ELSE IF g <= O3 THEN OneWrongAt(g - O2)
   ELSE IF g <= O4 THEN LongSeqAt(g - O3)
   ELSE IF g <= O5 THEN NoDomainTypeDoc
-  ELSE NearMissAt(g - O5)
+  ELSE IF g <= O6 THEN NearMissAt(g - O5)
+  ELSE PlusExtraAt(g - O6)
+Histories == IF "VERIF_TIER" \in DOMAIN IOEnv /\ IOEnv.VERIF_TIER = "thorough" THEN 300 ELSE 40
 VARIABLE n
 INSTANCE GenBase
 =============================================================================
